@@ -168,6 +168,7 @@ func VerifC02Step() {
 	vsym.Observe(uint64(len(a.highlowcontainer.keys)))
 	if inv {
 		vBitmapWf(a, true)
+		vsym.Assert(a.Validate() == nil, "validate")
 	} else {
 		vBitmapExact(a, post.spec(), false)
 	}
